@@ -143,6 +143,11 @@ class Gen:
                 # queue: the queue moves it, it wakes once, at the new time
                 body.append(['resched', rng.randrange(rid), self.delta()])
                 continue
+            if 'tick2' in self.features and self.clocks and rng.random() < 0.06:
+                # ONE task object (a Function) pending on two clocks at once -
+                # SystemClock and a tempo clock: it ticks on both, n times each
+                body.append(['tick2', self.delta(), rng.randint(1, 3)])
+                continue
             if 'reenter' in self.features and rng.random() < 0.04:
                 # the routine calls next() on itself (refused) and carries on
                 body.append(['reenter'])
@@ -405,6 +410,8 @@ class Run:
         from sc3.base import clock as clk, stream as stm, builtins as bi
         from sc3.base.netaddr import NetAddr
         self.main, self.clk, self.stm, self.bi = main, clk, stm, bi
+        from sc3.base import functions as _fn
+        self.fn = _fn
         self.prog = prog
         self.mode = mode
         self.tag = tag
@@ -430,6 +437,7 @@ class Run:
         self.max_late = 0.0
         self.n_res = 0
         self.n_wrapped = 0
+        self.n_tick2 = 0
         self.n_model = 0
         self.kinds = {}
 
@@ -807,6 +815,27 @@ class Run:
                     out = 'moved'
                 self.log.append(('resched', st['rid'], s[1], out, s[2],
                                  self.now_secs() - self.T0))
+            elif op == 'tick2':
+                tclk = st['clock'] if st['ci'] >= 0 else (self.clocks[0] if self.clocks else None)
+                if tclk is not None:
+                    self.n_tick2 += 1
+                    st['ntick'] = serial = st.get('ntick', 0) + 1     # (per routine)
+                    left = {'sys': s[2], 'tempo': s[2]}
+                    rid_, d_ = st['rid'], s[1]
+                    sysclock = self.clk.SystemClock
+                    self.live += 2
+
+                    def tick(me, clock, left=left, rid_=rid_, d_=d_, serial=serial):
+                        which = 'sys' if clock is sysclock else 'tempo'
+                        self.log.append(('tick', rid_, serial, which, self.now_secs() - self.T0))
+                        left[which] -= 1
+                        if left[which] > 0:
+                            return d_
+                        self._dec()
+                        return None
+                    f = self.fn.Function(tick)
+                    sysclock.sched(d_, f)
+                    tclk.sched(d_, f)
             elif op == 'send':
                 self.addr.send_bundle(s[1], ['/vf', self.tag * 100000 + s[2]])
                 self.log.append(('send', st['rid'], s[2], s[1],
